@@ -305,3 +305,16 @@ def contracts():
     c.clause_prefixes = ["C03/"]
     c.name = "ParameterizedMetaclass.__setattr__[watcher table of the copied Parameter]"
     return _c03_base5() + [c]
+
+
+# the update route: every accepted change of a multi-parameter update is announced by the time the
+# call returns or raises (verified for C05; a change left queued would reach its watchers late, with
+# stale old/new, next to a later event)
+_c03_base6 = contracts
+
+
+def contracts():
+    from contracts import c05 as _c05
+    u = _c05.update_contract()
+    u.prop = PROP
+    return _c03_base6() + [u]
